@@ -65,3 +65,39 @@ Proof.
   split; [reflexivity|].
   vm_compute; reflexivity.
 Qed.
+
+(* ------------------------------------------------------------------ the data-length byte
+   (open finding record-data-length-byte).  The length varint of rec.Data, like the type, is
+   outside the CRC, and the generated Unmarshal skips unknown fields.  Metadata chosen as
+   "ab" followed by five bytes that (a) parse as an unknown fixed32 field (tag 0x25) and
+   (b) leave the CRC-32C digest unchanged (crc("ab" ++ s) = crc("ab"); found by search, checked
+   here by computation).  Changing the data-length byte from 7 to 2 makes Open+ReadAll return
+   err = nil with metadata "ab": the record's own CRC still matches and so does the rolling
+   chain for every later record. *)
+Definition dl_meta : bytes := [x61; x62; x25; x27; x0c; x0b; xe4].
+Definition dl_files : list bytes := map file_bytes (w_files 4096 (w_run (Some dl_meta) [])).
+Definition dl_written : list wrec := concat (decode_each dl_files 0).
+Definition dl_off : N := 33.
+Definition dl_files' : list bytes := map (set_byte dl_off x02) dl_files.
+
+Theorem data_length_byte_refuted_ex :
+  exists (files : list bytes) (written : list wrec) (off : N) (v : byte) meta meta' hs ents,
+    files = map file_bytes (w_files 4096 (w_run (Some meta) []))
+    /\ written = concat (decode_each files 0)
+    /\ locate written 0 off = (1, PDataLen)
+    /\ crc_update 0 meta = crc_update 0 meta'                    (* the engineered coincidence *)
+    /\ read_all true 0 0 files = RAOk (Some meta) hs ents true
+    /\ read_all true 0 0 (map (set_byte off v) files) = RAOk (Some meta') hs ents true
+    /\ meta' <> meta
+    /\ prefix_ok 0 0 written 0 (RAOk (Some meta') hs ents true) = false.
+Proof.
+  exists dl_files, dl_written, dl_off, x02, dl_meta, [x61; x62], (mkhs 0 0 0), [].
+  split; [unfold dl_files; reflexivity|].
+  split; [unfold dl_written; reflexivity|].
+  split; [vm_compute; reflexivity|].
+  split; [vm_compute; reflexivity|].
+  split; [vm_compute; reflexivity|].
+  split; [vm_compute; reflexivity|].
+  split; [discriminate|].
+  vm_compute; reflexivity.
+Qed.
